@@ -234,8 +234,18 @@ def writer_layouts(prog: Program, cls: ClassInfo, fn: FuncInfo, depth: int = 0) 
             out.append((c.lineno, c.col_offset, (fmt, c, fn)))
             its = struct_items(fmt)
             st = A.enclosing_stmt(c)
-            if its is not None and len(its) == 1 and len(c.args) == 2 and isinstance(st, ast.AugAssign) and isinstance(st.op, ast.Add) and st.value is c:
-                singles.append((c, fmt, norm(st.target)))
+            if its is not None and len(its) == 1 and len(c.args) == 2:
+                # the pack is one operand of a concatenation that feeds an accumulator: `acc += pack(..)`, `acc = pack(..) + pack(..)`,
+                # `return pack(..) + pack(..)` (one canonical key per accumulator)
+                top = c
+                while isinstance(getattr(top, "_parent", None), ast.BinOp) and isinstance(top._parent.op, ast.Add):  # type: ignore[attr-defined]
+                    top = top._parent  # type: ignore[attr-defined]
+                if isinstance(st, ast.AugAssign) and isinstance(st.op, ast.Add) and st.value is top:
+                    singles.append((c, fmt, norm(st.target)))
+                elif isinstance(st, ast.Assign) and st.value is top and top is not c and len(st.targets) == 1:
+                    singles.append((c, fmt, norm(st.targets[0])))
+                elif isinstance(st, ast.Return) and st.value is top and top is not c:
+                    singles.append((c, fmt, "<return>"))
     # idiom: one pack per field joined with `acc += pack(<order><item>, value)` -> one virtual layout
     if len(singles) >= 2 and len({t for _c, _f, t in singles}) == 1 and len({f[0] for _c, f, _t in singles}) == 1 and singles[0][1][0] in "<>!=":
         order = singles[0][1][0]
